@@ -26,7 +26,7 @@ CLAIMED = {
     ),
     "C20": (
         "bounded-exhaustive single-item / ordered-pair tables at CBOR width and 2^64 boundaries + proptest-driven certificate / withdrawal / proposal sequences against the engine's Conway deposit table in exact integers",
-        "Generated-input search: bodies with certificate sequences over all 19 wire kinds (explicit and parameter-based amounts, key and script credentials), withdrawal maps and proposal lists, pool/key deposit parameters in width classes, sums steered to 2^64-1+d. The stand-alone get_deposit / get_implicit_input and the builder's get_deposit / get_implicit_input / get_explicit_input-side figures must equal the engine's table evaluated in unbounded integers (kinds and coins read from the emitted CBOR, not from getters), and must be Err exactly when the exact total exceeds 2^64-1; helper and builder must agree. Every single item and every ordered pair of item kinds is enumerated at boundary amounts. Exploration is the right level: cheap pure functions, failures sit at kind pairs and overflow edges the tables enumerate.",
+        "Generated-input search: bodies with certificate sequences over all 19 wire kinds (explicit and parameter-based amounts, key and script credentials), withdrawal maps and proposal lists, pool/key deposit parameters in width classes, sums steered to 2^64-1+d. The stand-alone get_deposit / get_implicit_input and the builder's get_deposit / get_implicit_input / get_explicit_input-side figures must equal the engine's table evaluated in unbounded integers (kinds and coins read from the emitted CBOR, not from getters), and must be Err exactly when the exact total exceeds 2^64-1; helper and builder must agree. The builder is also fed corrected histories (a withdrawal entered with another amount and corrected, a proposal offered twice, sub-builders set twice): its figures must describe the final state. Every single item and every ordered pair of item kinds is enumerated at boundary amounts. Exploration is the right level: cheap pure functions, failures sit at kind pairs and overflow edges the tables enumerate.",
         "Trusts the engine's transcription of the Conway deposit / refund table (DESIGN 3.3) and its CBOR reader; every pool registration counts as a first registration, as the property fixes.",
         "DESIGN.md \u00a75 C20",
     ),
@@ -68,7 +68,7 @@ CLAIMED = {
     ),
     "C01": (
         "proptest-driven tape generation of typed values + bounded-exhaustive presence-mask / variant sweeps, round-trip oracle",
-        "Generated-input search over ~140 public types: each generated value is encoded, checked for well-formedness by an independent CBOR reader, decoded, compared (library equality with empty optional collections counted as absent), re-encoded (byte equality) and passed through the hex entry points in both letter cases. All 2^18 presence masks of TransactionBody, the low/high-weight masks of ProtocolParamUpdate and all short boundary tapes of every certificate / governance action / relay / native script variant are enumerated. Exploration is the right level: the space is unbounded and the oracle is a cheap executable round trip.",
+        "Generated-input search over ~140 public types: each generated value is encoded, checked for well-formedness by an independent CBOR reader, decoded, compared (library equality with empty optional collections counted as absent), re-encoded (byte equality) and passed through the hex entry points in both letter cases. The byte-preserving transaction type is covered through histories (sub-check fixed_tx: a generated transaction loaded by from_bytes / new / new_with_auxiliary, then 0-5 more key / bootstrap witnesses through every adder, wire round trips in between). All 2^18 presence masks of TransactionBody, the low/high-weight masks of ProtocolParamUpdate and all short boundary tapes of every certificate / governance action / relay / native script variant are enumerated. Exploration is the right level: the space is unbounded and the oracle is a cheap executable round trip.",
         "Trusts the engine's CBOR reader (unit-tested against RFC 8949 Appendix A) and the library's PartialEq as the notion of equality; nesting depth and collection sizes are bounded (evidence states the bounds).",
         "DESIGN.md §5 C01",
     ),
@@ -92,7 +92,7 @@ CLAIMED = {
     ),
     "C08": (
         "proptest-driven generation of (UTxO set, outputs, strategy, random schedule) with the library's thread RNG replaced by a harness-fed schedule (verif-hooks), soundness oracle over the builder's real input set",
-        "Generated-input and generated-schedule search: the random words consumed by the random-improve strategies are part of the generated, shrinkable input, so every selection / improvement-swap / fee-top-up outcome is reachable and replayable. On success the builder's actual inputs (read back from a built body, valued from the scenario's own UTxO map) must contain the earlier inputs, add only distinct offered UTxOs, and cover outputs + deposits + min_fee() in lovelace and every requested asset; largest-first must add a top-k set that is minimal, and may report insufficiency only if all offered UTxOs do not suffice. The swap-then-top-up class the property singles out is measured.",
+        "Generated-input and generated-schedule search: the random words consumed by the random-improve strategies are part of the generated, shrinkable input, so every selection / improvement-swap / fee-top-up outcome is reachable and replayable. Scenarios include pre-existing inputs, deposits, withdrawals (implicit input) and a caller-requested minimum fee at or below the real fee. On success the builder's actual inputs (read back from a built body, valued from the scenario's own UTxO map) must contain the earlier inputs, add only distinct offered UTxOs, and cover outputs + deposits + min_fee() in lovelace and every requested asset; largest-first must add a top-k set that is minimal, and may report insufficiency only if all offered UTxOs do not suffice. The swap-then-top-up class the property singles out is measured.",
         "Trusts the hook's gen_range mapping (monotone floor(word*n/2^64)); amounts below 2^40; offered UTxOs form a set.",
         "DESIGN.md §5 C08",
     ),
